@@ -132,6 +132,68 @@ CLAIMS["C19"] = dict(engine="AutoTraits",
         "pointee is assumed (4 leaf types plus an opaque user RefCnt kind); private types reach rustc only through Guard.",
    technique="Rocq/Coq proof by kernel-checked exhaustive case analysis (vm_compute + forallb_forall) over a regenerated type table + translation validation against rustc")
 
+
+PARTIAL_STEP = "Rocq/Coq proof (step theorems for every state and choice + inductive invariants over all schedules where stated) + trace correspondence with history/ownership oracles"
+CLAIMS.update({
+ "C01": dict(engine="ASModel",
+   text="Coq theorems over ASModel, where every count access to a destroyed value is a fault outcome of the step: a decrement destroys exactly at count 1 and "
+        "touches no other value; a fast-path guard is handed out only if the storage still holds the published pointer at the confirming read after "
+        "the debt became visible; a writer pays a slot iff it holds exactly the removed pointer and then adds exactly one reference; the walk visits "
+        "all nine slots of every node below the head it read. Over all schedules: the node a thread publishes debts in is exclusively its own "
+        "(C11_exclusive) and no step panics (C13_total). " + TIE + " Any FAULT of the harness arena (access to a freed or reused cell, checked on every "
+        "count access and deref of the real crate) or of the model is a finding; 1-3-preemption sweeps, freeze sweeps, the grid of the D8 schedule shape.",
+   note=NOTE + "Partial: the closed theorem 'no run reaches a fault' (accounting + protection invariants) is in progress (coq/ASModel/Acc*.v); until "
+        "then the all-schedules claim rests on the invariants named above plus the searched correspondence. Weak-memory executions: C07.",
+   technique=PARTIAL_STEP),
+ "C02": dict(engine="ASModel",
+   text="Coq theorems over ASModel: the destructor runs in the very step whose decrement finds the count at 1 (tight), a writer adds exactly one "
+        "reference per debt it removes and removes a debt only from a slot holding exactly the removed pointer, a guard gives back its debt or - if it "
+        "was paid - exactly one reference, Guard::into_inner takes one reference first; storage changes only by a writer's single exchange and the "
+        "exchanges form one chain (C04). " + TIE + " The final-state dump of the real crate (all strong counts, all slots, containers, live objects) must "
+        "equal the model's; the oracle requires every value destroyed exactly once at the drop of its last owner and every slot empty once its guard is gone.",
+   note=NOTE + "Partial: the closed equation count + slots = containers + handles + frames over all schedules is in progress (coq/ASModel/Acc*.v).",
+   technique=PARTIAL_STEP),
+ "C03": dict(engine="ASModel",
+   text="Coq theorems over ASModel: the writes of a container form ONE chain over every run (all schedules); the value of a fast-path guard is the "
+        "content of the storage at the confirming read inside the call; the unhelped fallback returns the content at the candidate read that follows "
+        "the publication of the request and keeps it only if the control word still carries that generation; the helped fallback takes the value from "
+        "the envelope named by the control word, which a writer fills with a load_full of the storage address the reader announced. " + TIE + " History "
+        "oracle: every returned identity was the stored value of that container at some instant between call and return, loads after a completed "
+        "write see it or a later one, per-thread monotonic; defect D8 (found by this proof work, repaired in 83d9f2e) is kept as a schedule grid.",
+   note=NOTE + "Partial: that the helper's nested load lies inside the reader's call (generation uniqueness per ownership epoch) and the real-time/"
+        "monotonicity clauses are not yet theorems over histories. Stale relaxed reads are not modelled (C07 covers the orderings).",
+   technique=PARTIAL_STEP),
+ "C10": dict(engine="ASModel",
+   text="Coq theorems over ASModel: a guard is (pointer, optional slot named by node and index); its drop and into_inner depend only on that pair and "
+        "the shared memory, not on the executing thread's node or local state (droppable anywhere, after the creator exited); the drop gives back "
+        "exactly the debt or exactly one reference; steps inside other commands change no handle; the fallback returns a fully counted guard; over all "
+        "schedules a node's slots receive new debts only from its single holder (C11_exclusive) and a load is wait-free for any number of held "
+        "guards (C08). " + TIE + " Oracle: the object identity (not the address) seen through each guard at creation and at drop; programs move guards "
+        "between threads, drop them after the creator exited, after the container was dropped or consumed, with > 8 guards held.",
+   note=NOTE + "Partial: 'the pointee stays alive and its address is not reused while the guard exists' is C01's protection invariant (in progress). "
+        "Operations after TLS destruction are not modelled.",
+   technique=PARTIAL_STEP),
+ "C12": dict(engine="ASModel",
+   text="Coq theorems over ASModel: a step of any frame leaves every other container's storage alone and each container's writes form their own "
+        "chain (all schedules); a writer helps a reader only if the reader announced the writer's own storage address, otherwise it re-validates the "
+        "control word; a writer pays a slot only if it holds exactly the pointer it removed, and the reader returns an over-payment as exactly one "
+        "reference; writers never wait (C09), loads are wait-free (C08). " + TIE + " Oracle: provenance of every loaded identity per container; "
+        "multi-container programs incl. one value in several containers; grid of the D8 schedule shape (defects D2 and D8 were violations of this).",
+   note=NOTE + "Partial: 'never handed a value only stored in another container' on the helping path over all schedules needs generation uniqueness "
+        "(in progress); containers of different pointee types are C15/C19 territory.",
+   technique=PARTIAL_STEP),
+ "C07": dict(engine="ASModel",
+   text="Machine-checked happens-before calculus (coq/Seq/HB.v: sb, rf, release sequences through RMWs, sw derived from the orderings incl. the failure "
+        "ordering of a failed CAS and Arc's acquire fence) and the crate's synchronisation skeleton: init hb deref on direct load / fallback / helper "
+        "hand-over / returned previous value; deref hb destroy through debt return -> writer walk (a failed pay must acquire) -> Arc drop; writer-pays "
+        "variant; SeqCst store-buffering dichotomies (slot vs writer, generation vs writer). Every ordering side condition is computed by eq_refl from "
+        "the orderings table regenerated from /repo/src on every run, so a weakened ordering breaks Props/C07.v at the path that needs it; C07_sites "
+        "proves the skeleton's event kinds are what ASModel.Step.exec emits; the pre-fix table is refuted (d4_refuted). " + TIE,
+   note=NOTE + "Partial: that every execution of the crate decomposes into these chains (the rf/sb hypotheses) is not proved; coherence, SC order and RMW "
+        "atomicity are explicit hypotheses; slot_vs_writer assumes walk_not_stale. Miri litmus programs for D4/D5 (harness/litmus/run.sh) are run by hand.",
+   technique="Rocq/Coq proof over an axiomatic hb calculus, side conditions from a translator-regenerated table + trace correspondence of orderings"),
+})
+
 REASONS = {}
 
 def main():
@@ -150,7 +212,7 @@ def main():
              {"name": "SerdeModel", "path": "/verif/coq/Seq", "serves_properties": ["C20"], "kind_free_text": "Coq model of src/serde.rs; harness/seqx differential run"},
          ],
          "checks": [], "not_applicable": [],
-         "notes": "Fix commits in /repo: 45d9e22 (D4), bae028e (D5), d277032 (D2), 505454e (D1); see known_findings.txt and DESIGN.md §6."}
+         "notes": "Fix commits in /repo: 45d9e22 (D4), bae028e (D5), d277032 (D2), 505454e (D1), 83d9f2e (D8); see known_findings.txt and DESIGN.md."}
     for p in props:
         pid = p["id"]
         if pid in CLAIMS:
